@@ -165,7 +165,10 @@ def main():
     ck.cov['trusted_base'] = ['Coq 8.16.1 kernel + VM', 'AsmModel.v/AsmLayout.v hand model of hexasm.hpp (tied by correspondence: here and in C05/C10/C17)',
                               'XFront.v hand model of xcmp.hpp Lexer/Parser (tied in C09)', 'extraction + ocaml/asmdrv.ml',
                               'glibc MALLOC_PERTURB_, setarch -R, harness/xcmp_harness.cpp (det mode, no sanitizer), harness/asm_det_harness.cpp, g++ 12 -O1']
-    ck.assumptions = ['independence from heap contents, environment size, ASLR and earlier work in the same process is CORRESPONDENCE ONLY (a theorem cannot exhibit a heap); '
+    ck.assumptions = ['TRUSTED, NOT PROVED: the real lexer calls std::isspace/isalpha/isdigit/isalnum on a plain (signed) char (xcmp.hpp ~269, 322, 342, 346), undefined in ISO C for '
+                      'bytes 0x80..0xFE; XFront.v models them with glibc\'s behaviour (C-locale tables indexed from -128).  XFront.v never produces its UB verdict (unreachable by '
+                      'construction), so C11_front_no_indeterminate_partial is a totality/fuel theorem (no OutOfFuel), not evidence about undefined behaviour of the real lexer',
+                      'independence from heap contents, environment size, ASLR and earlier work in the same process is CORRESPONDENCE ONLY (a theorem cannot exhibit a heap); '
                       'the theorems say: the models are functions of the source, total, and have no indeterminate outcome',
                       'for xcmp only lexer+parser are modelled; code generation determinism rests on the perturbation runs',
                       'sources the tools reject are compared too (diagnostic and exit status must not vary), but only accepted ones count as non-trivial']
